@@ -765,6 +765,7 @@ int main(int argc, char *argv[])
       else if (numberof.depth == HWLOC_TYPE_DEPTH_UNKNOWN)
         fprintf(stderr, "cannot use --number-of type %s, unavailable\n",
                 numberof_string);
+      ret = EXIT_FAILURE;
       goto out;
     }
   }
@@ -782,6 +783,7 @@ int main(int argc, char *argv[])
       else if (intersect.depth == HWLOC_TYPE_DEPTH_UNKNOWN)
         fprintf(stderr, "cannot use --intersect type %s, unavailable\n",
                 intersect_string);
+      ret = EXIT_FAILURE;
       goto out;
     }
   }
@@ -812,10 +814,12 @@ int main(int argc, char *argv[])
         else if (hierlevels[i].depth == HWLOC_TYPE_DEPTH_UNKNOWN)
           fprintf(stderr, "cannot use --hierarchical type %s, unavailable\n",
                   tmp);
+	ret = EXIT_FAILURE;
 	goto out;
       }
       if (hierlevels[i].depth < 0 && hierlevels[i].depth != HWLOC_TYPE_DEPTH_NUMANODE) {
 	fprintf(stderr, "unsupported (non-normal) --hierarchical type %s\n", tmp);
+	ret = EXIT_FAILURE;
 	goto out;
       }
       tmp = next+1;
